@@ -84,6 +84,42 @@ P["C05"] = dict(
     design_ref="3 TAB-op, 4 C05",
 )
 
+
+P["C04"] = dict(
+    text="The acceptance predicate of each typed parameter (uN, sN, iN) and of sized data is decided by abstract interpretation of the MIR of the range-checking code over the finite atom set {sign of v, min_size(v) <, =, > N, N = 0}: the extracted decision table (accept / reject-with-error per atom combination) must equal the table derived from the statement's formula; further rules: min_size is computed from the untruncated value (no slice/convert between the evaluated argument and the test), the accepted value is emitted through the constrained-size path with the declared width N, the data directive tests `size <= N` on the definite size or min_size before emission and rejects with an error on the other edge, and the type-name tables (u/s/i + decimal width) agree between parser and checker.",
+    note="Decides the acceptance predicate exactly (it is a finite decision table over comparisons) and the no-truncation-before-test data flow; the two's-complement extraction inside num-bigint is trusted. Known finding F16: width 0 (u0/s0/i0) accepts values the formula rejects.",
+    technique="static analysis: abstract interpretation of range predicates over a finite ordering/sign domain on MIR, decision-table differ, provenance (no narrowing between evaluation and test), dominance of the rejection edge",
+    design_ref="3 RNG, 4 C04",
+)
+
+P["C06"] = dict(
+    text="Static must-pass-through and who-may-write analysis of the layout code: every call that writes bits into the output BitVec is in an audited table of writers (a new writer is reported); in build_output every emission is dominated by the success edges of check_bank_usage, check_bank_output called with the same position and size as the write, and the overlap checker fed with the same position/size (so an item is checked against its bank window and all previous items before it is written); the position is computed by the one audited address->output-position function; the phases (banks resolved, iterative resolution, stop_at_errors, output) run in order behind their success edges; BitVec::write grows the vector with zeros only (no other initialiser), truncation never happens after a write; fill_banks extends exactly to the end of a bank flagged fill; and the layout arithmetic (outp + (a - addr) * bits + offset, window ends, label alignment) is checked for unchecked/wrapping operations on input-sized operands (LIM2).",
+    note="Decides the structural clause 'nothing is written unchecked, unchecked positions cannot wrap, gaps can only be zero'; the arithmetic identity position = outp + (a - addr) x bits for every value is read off the single audited expression, not proved for all integers. Known findings: remaining unchecked position arithmetic on absurdly large addresses (LIM2 position family, shared with C19).",
+    technique="static analysis: dominance / success-edge must-pass-through over MIR, argument-provenance equality between checker and writer calls, who-may-call audit, magnitude-class taint on layout arithmetic",
+    design_ref="3 MPT/PIPE, 4 C06",
+)
+
+P["C12"] = dict(
+    text="Static agreement between what is written and what is listed: every bit-writing call either records a span with the same offset, size and address as the write (span = write, compared by operand provenance) or is an audited span-less writer; listings iterate spans sorted by output offset and print the span's own offset/addr/size fields (no recomputation), take the data from the same BitVec at [offset, offset+size) and the excerpt from the span's own source location through the byte-unit-correct excerpt path (UNIT/SRC rules of C13); the symbol formats walk the declaration list in declaration order, skip exactly the no_emit symbols, print the resolved value field of the definition, and the Mesen offset arithmetic is checked for unchecked operations.",
+    note="Decides the structural agreement (rows come from the same records as the bits); that each formatter's text encodes those numbers correctly in every radix is value-level and not claimed beyond the constant-parameter checks of C11.",
+    technique="static analysis: operand-provenance equality between write and span record, field-use audit in the listing formatters, sort-before-iterate dominance, enum/flag filter extraction from MIR",
+    design_ref="3 MPT, 4 C12",
+)
+
+P["C01"] = dict(
+    text="Structural necessary conditions of 'bits = language definition, rejected programs are errors', decided on every path: (REJ) in the instruction matcher and resolver, zero surviving matches, more than one surviving match of equal smallest size, an undefined symbol on the last pass, a failed range test and a failed assertion each reach an error report and an Err/Unresolved return on the last iteration, with no path that picks a candidate silently; the candidate chosen is the recorded unique match and its production is evaluated with the argument values bound by that match at the instruction's own address context; (PIPE) the phases run in order behind their success edges and the output is built only after stop_at_errors; (MPT) every instruction/data/label site emits or defines through the audited functions with the encoding/address just resolved; (RNG) the range tables of C04; (ERR5) no Err from the evaluation/matching layer is dropped or overwritten before inspection anywhere reachable from the entry points.",
+    note="Decides the rejection and dataflow clauses structurally. NOT decided: that the emitted bits equal an independent reference semantics for every program (needs an executable reference and differential runs: out of this family). Known finding F16 (width-0 types) shared with C04.",
+    technique="static analysis: path-state search for rejection paths over MIR, dominance / success-edge checks of the pipeline, provenance of the chosen candidate and its arguments, abstract interpretation of range predicates, interprocedural dropped-error analysis",
+    design_ref="3 REJ/PIPE/MPT, 4 C01",
+)
+
+P["C14"] = dict(
+    text="Static confinement and pairing rules for file inclusion: (INC1) every file name that reaches FileServer::get_handle from the assembler is the result of filename_navigate on the including file's name (or a root file name), at every call site including the recursive one; (INC2) every non-<std> result of filename_navigate is behind the success edge of filename_validate_relative, `..` with nothing left to pop is reported and rejected and the pop happens only on the other edge, only <std>/ names are returned verbatim, FileServerReal::get_handle never registers a <std>/ name from the disk, and the file-system API (std::fs, Path::exists/...) is called only by the audited methods of FileServerReal; (INC3) the recursive inclusion happens only on the false edge of the include-stack membership test of the navigated name (the true edge reports and fails), the stack is pushed before and popped after the recursion, the #once set is consulted before the file is opened and filled exactly on the `AST contains DirectiveOnce` edge; (INC4) in incbin and incbinstr/inchexstr the slice of the file contents is dominated by the failing-with-error tests `start >= len` and `end > len`, whose arithmetic is saturating/checked (LIM2).",
+    note="Decides confinement, cycle and #once structure and that ranges are tested before slicing; that the returned digits equal the file's digits for every content is value-level and not claimed. One genuine defect found and repaired (<std>/ names reached the disk).",
+    technique="static analysis: value-provenance of call arguments over MIR, success-edge dominance, who-may-call audit of the file-system API, edge-dominance of recursion by the membership test, range-test dominance",
+    design_ref="3 INC, 4 C14",
+)
+
 NA_PENDING = "check not built yet (build in progress, see DESIGN.md section 9)"
 
 
